@@ -14,22 +14,39 @@ from fractions import Fraction
 
 from vcheck import Case, gnlist, gq, gz, gzlist
 import tgen
+from props import c08_hist
 
 PROP = "C08"
 LEVEL = "proof"
 GEN_UNITS = []
-COQ_TARGETS = ["Props/C08.vo", "Model/C08Inst.vo", "Model/Harness.vo"]
-THEOREM_FILES = ["Props/C08.v"]
+COQ_TARGETS = ["Props/C08.vo", "Props/C08b.vo", "Model/C08Inst.vo", "Model/C08Inst2.vo", "Model/Harness.vo"]
+THEOREM_FILES = ["Props/C08.v", "Props/C08b.v"]
 COQ_IMPORTS = ("From Coq Require Import List ZArith QArith Qcanon Bool.\n"
-               "From PV Require Import Base.Index Base.Perm Model.Repr Model.Harness Model.C08Kruskal Model.C08Inst.\n")
+               "From PV Require Import Base.Index Base.Perm Model.Repr Model.Harness Model.C08Kruskal Model.C08Inst Model.C08More Model.C08Inst2.\n")
 RULE = ("Kruskal tensors with 1-4 modes (1-way included), mode sizes 1-4, ranks 1-4, integer factor columns with exactly "
         "representable norms (zero columns included), weights of either sign and zero; every weight_factor (None, each mode, "
         "'all'), sort on/off, both norm types, mode=; every component permutation for R<=4 (thorough; sampled in quick) and "
         "subsets; fixsigns(other) against references realising every sign pattern of the per-mode correlations (2^N); "
-        "non-trivial = rank>=2 or more than one cell, not all weights zero; distinct = distinct (op,args)")
-CORRESPONDENCE_ONLY = ["score: the matching itself (score value, choice of best_perm) is not claimed; only the final arrange(permutation) is a theorem",
-                       "fixsigns(other): the two in-place normalisations + paired flips are compared with the model per case (the theorems "
-                       "cover invariance, parity and the sign-agreement normal form of the model)",
+        "non-trivial = rank>=2 or more than one cell, not all weights zero; distinct = distinct (op,args). About half of the "
+        "single-step cases run on factors the user assigned as C-contiguous arrays or non-contiguous views. HISTORIES (op 'hist'): "
+        "2-3 steps over the whole op alphabet (every ordered pair occurs; normalize in all variants, arrange, redistribute, fixsigns, "
+        "-K, c*K, K*c, +, -, extract, permute, copy, tovec->from_vector, update, layout re-assignment; terminal: tolist, symmetrize, "
+        "score, fixsigns(other)), inputs general / already unit-norm columns with signed weights / symmetric up to column signs; after "
+        "every step raw weights+factors (or vector/list) are compared with the chained model state, the denoted array and the normal "
+        "form are re-evaluated on pyttb's result, and every object a step must not touch (receiver of a non-mutating op, second "
+        "operands, and the fresh result when the history continues with the old object) is compared with its snapshot; mask(W)")
+CORRESPONDENCE_ONLY = ["score: the congruence / penalty matrix (np.abs(A.T @ B), products, 1 - |la-lb|/max) is an executable Qc model compared per "
+                       "case (best_perm and best_score, whenever the greedy choice is pinned = no tie among free cells); the THEOREMS cover the "
+                       "greedy loop on an arbitrary matrix (permutation, greedy choice, score sum) and the final arrange(permutation); that the "
+                       "matrix entries exceed -10 is a hypothesis (they are products of absolute values and penalties in [0,1])",
+                       "fixsigns(other): the column loop (two in-place normalisations, per-component flips applied to self one after the other) is "
+                       "compared with the model per case; the theorems cover the pairing rule (literal breakpt/endpt arithmetic = model rule), "
+                       "invariance, parity and the sign-agreement normal form of the model",
+                       "ktensor.symmetrize: executable transliteration (normalize('all'), sign alignment with factor 0, per-flip weight toggle, "
+                       "average, odd-order repair) compared per case incl. histories; no denotation theorem (the value is kept only for inputs "
+                       "whose factors agree up to column signs: evaluated per case)",
+                       "multi-step histories, memory layouts (C-contiguous / non-contiguous factors) and operand aliasing: compared per case "
+                       "(model state chained through the steps); numpy memory order is not modelled in Coq",
                        "normal form w.r.t. numpy's own norm: the theorems assume the norm oracle satisfies nrm_spec (positively homogeneous, even, "
                        "zero on zero columns; instantiated and proved for the exact 1-norm over Qc); np.linalg.norm itself is tied by the "
                        "per-case evaluation of unit columns / zero weights on pyttb's result"]
@@ -248,6 +265,28 @@ def gen_cases(rng, tier):
             w2 = [w[r] * rng.choice([1, 2]) for r in sel]
             f2 = [[[row[r] for r in sel] for row in A] for A in f]
             cases.append(Case("score", {"w": w, "f": f, "w2": w2, "f2": f2}, True))
+    # ---- mask(W): the values of the Kruskal tensor at the entries W marks (dense 0/1 mask and sparse mask; empty, one, all)
+    for shape in shapes:
+        for R in (1, 2, 3):
+            if not big and rng.random() < 0.5:
+                continue
+            w, f = rand_k(rng, shape, R, 1)
+            subs_all = tgen.all_subs(list(shape))
+            k = rng.choice([0, 1, len(subs_all), rng.randint(0, len(subs_all))])
+            marked = sorted(rng.sample(range(len(subs_all)), k))
+            cases.append(Case("mask", {"w": w, "f": f, "marked": [subs_all[q] for q in marked],
+                                       "sparse": k > 0 and rng.random() < 0.5}, nt(w, shape) and k > 0))
+            # (an sptensor mask without stored entries makes ktensor.mask raise IndexError — outside C08's text, noted in progress)
+    # ---- memory layouts: every single-step case is run on F-contiguous factors, or (about half of them) with factors that the
+    #      user assigned as C-contiguous arrays / non-contiguous views
+    for c_ in cases:
+        if rng.random() < 0.5:
+            c_.args["lay"] = c08_hist.rand_lay(rng, len(c_.args["f"]))
+            if "f2" in c_.args:
+                c_.args["lay2"] = c08_hist.rand_lay(rng, len(c_.args["f2"]))
+    # ---- multi-step histories over the op alphabet (layouts, aliasing of operands, inputs already in normal form, symmetrize)
+    import sys
+    cases += c08_hist.gen_hist(rng, sys.modules[__name__], tier)
     return cases
 
 
@@ -306,18 +345,18 @@ def fso_scores(a):
 # ----------------------------------------------------------------------------------------------------------------
 # pyttb runner
 # ----------------------------------------------------------------------------------------------------------------
-def mk_k(ttb, np, w, f):
-    R = len(w)
-    fm = [np.array(A, dtype=float).reshape((len(A), R)) for A in f]
-    return ttb.ktensor([np.asfortranarray(a.copy()) for a in fm], np.array(w, dtype=float), copy=True)
+def mk_k(ttb, np, w, f, lay=None):
+    return c08_hist.mk_k(ttb, np, w, f, lay)
 
 
 def run_impl(c):
     import numpy as np
     import pyttb as ttb
     a = c.args
+    if c.op == "hist":
+        return c08_hist.run_hist(c)
     try:
-        K = mk_k(ttb, np, a["w"], a["f"])
+        K = mk_k(ttb, np, a["w"], a["f"], a.get("lay"))
         if c.op == "normalize":
             K.normalize(weight_factor=a["wf"], sort=a["sort"], normtype=a["normtype"], mode=a["mode"])
             return {"ok": tgen.obs_ktensor(np, K)}
@@ -334,7 +373,7 @@ def run_impl(c):
             K.redistribute(a["mode"])
             return {"ok": tgen.obs_ktensor(np, K)}
         if c.op in ("add", "sub"):
-            L = mk_k(ttb, np, a["w2"], a["f2"])
+            L = mk_k(ttb, np, a["w2"], a["f2"], a.get("lay2"))
             return {"ok": tgen.obs_ktensor(np, K + L if c.op == "add" else K - L)}
         if c.op == "neg":
             return {"ok": tgen.obs_ktensor(np, -K)}
@@ -344,7 +383,7 @@ def run_impl(c):
             K.fixsigns()
             return {"ok": tgen.obs_ktensor(np, K)}
         if c.op == "fixsigns_other":
-            L = mk_k(ttb, np, a["w2"], a["f2"])
+            L = mk_k(ttb, np, a["w2"], a["f2"], a.get("lay2"))
             K.fixsigns(L)
             return {"ok": tgen.obs_ktensor(np, K), "other": tgen.obs_ktensor(np, L)}
         if c.op == "permute":
@@ -359,8 +398,20 @@ def run_impl(c):
         if c.op == "tolist":
             fl = K.tolist() if a["mode"] is None else K.tolist(a["mode"])
             return {"ok": {"weights": [1] * len(a["w"]), "factors": [tgen.obs_matrix(np, A) for A in fl]}}
+        if c.op == "mask":
+            shape = tuple(len(A) for A in a["f"])
+            D = np.zeros(shape, order="F")
+            for i in a["marked"]:
+                D[tuple(i)] = 1.0
+            W = ttb.tensor(D, copy=True)
+            if a["sparse"]:
+                W = W.to_sptensor() if hasattr(W, "to_sptensor") else ttb.sptensor.from_tensor_type(W)
+            wsubs, _ = W.find()
+            vals = K.mask(W)
+            return {"vals": [tgen.exact(x) for x in np.asarray(vals).ravel()], "subs": [[int(x) for x in row] for row in np.asarray(wsubs)],
+                    "ok": tgen.obs_ktensor(np, K)}
         if c.op == "score":
-            L = mk_k(ttb, np, a["w2"], a["f2"])
+            L = mk_k(ttb, np, a["w2"], a["f2"], a.get("lay2"))
             sc, A2, flag, perm = K.score(L)
             return {"ok": tgen.obs_ktensor(np, A2), "perm": [int(x) for x in perm], "score": float(sc)}
     except Exception as ex:
@@ -413,12 +464,21 @@ def shape_of(f):
 
 def coq_check(c, o):
     a = c.args
+    if c.op == "hist":
+        return c08_hist.coq_hist(c, o)
     if "exc" in o:
         return "false"          # every request generated here is admissible
     ob = o["ok"]
     if not finite(ob):
         return "false"
     shp = gnlist(shape_of(a["f"]))
+    if c.op == "mask":
+        if not tgen.all_int(o["vals"]) or sorted(o["subs"]) != sorted(a["marked"]) or len(o["vals"]) != len(o["subs"]):
+            return "false"
+        subs = "(@nil (list nat))" if not o["subs"] else "[" + "; ".join(gnlist(i) for i in o["subs"]) + "]"
+        K = gzk(a["w"], a["f"])
+        return (f"let K := {K} in vec_eqb (zk_py_mask {subs} K) {gzlist(o['vals'])} && "
+                f"vec_eqb (map (zden_k K) {subs}) {gzlist(o['vals'])} && zk_eqb K {gzk(ob['weights'], ob['factors'])}")
     if c.op in ("normalize", "arrange"):
         K = gqk(a["w"], a["f"])
         O = gqk(ob["weights"], ob["factors"])
@@ -462,8 +522,10 @@ def coq_check(c, o):
         p = o["perm"]
         if sorted(p) != list(range(len(a["w"]))):
             return "false"
-        return (f"let K := {K} in let O := {O} in qk_close (qk_gather {gnlist(p)} (qk_normalize 2 WNone false None K)) O && "
-                f"qk_den_close {shp} K O")
+        L = gqk(a["w2"], a["f2"])
+        extra = c08_hist.score_clause(a["w"], a["f"], a["w2"], a["f2"], p, o["score"])
+        return (f"let K := {K} in let L := {L} in let O := {O} in "
+                f"qk_close (qk_gather {gnlist(p)} (qk_normalize 2 WNone false None K)) O && qk_den_close {shp} K O && {extra}")
     if not all_int_k(ob):
         return "false"
     K = gzk(a["w"], a["f"])
@@ -530,12 +592,21 @@ def close(x, y, tol=Fraction(1, 10 ** 9)):
 
 def oracle(c, o):
     a = c.args
+    if c.op == "hist":
+        return c08_hist.oracle_hist(c, o, den, close)
     if "exc" in o:
         return f"admissible request raised {o['exc']}: {o.get('msg')}"
     ob = o["ok"]
     if not finite(ob):
         return "non-finite value in the result"
     shape = shape_of(a["f"])
+    if c.op == "mask":
+        if sorted(o["subs"]) != sorted(a["marked"]) or len(o["vals"]) != len(o["subs"]):
+            return "mask(W) does not list exactly the marked entries"
+        for i, v in zip(o["subs"], o["vals"]):
+            if not close(v, den(a["w"], a["f"], i)):
+                return f"mask(W) at {i}: {v} instead of {float(den(a['w'], a['f'], i))}"
+        return None
     if c.op == "update":
         return None
     if c.op == "permute":
